@@ -194,6 +194,8 @@ class Walker:
             if c.get("fn"):
                 return ("fn", mir.callee_key(c["fn"]), c["fn"])
             v = int(c["val"]) if c["val"] is not None else None
+            if v is None and env.get("$ctheta") and c["s"] in env["$ctheta"]:
+                v = env["$ctheta"][c["s"]]           # const generic of an inlined helper, bound by the caller
             t = ("const", c["ty"]["s"], v, c["s"], c.get("cdef"), c.get("str"))
             if c.get("static"):
                 return ("static", c["static"])
@@ -368,6 +370,15 @@ class Walker:
                         res = res[1][0][2] if xs[3] == "Some" else res[1][1][2]
                         if xs[3] == "Some":
                             res = ("agg", "adt", "core::result::Result", "Ok", [xs[4][0]])
+                if info["key"] in ("Result<T, E>::map", "Option<T>::map", "Result<T, E>::map_err") and len(args) == 2:
+                    x = mir.strip_refs(args[0]) if args[0][0] == "ref" else args[0]
+                    if x[0] == "agg" and x[1] == "adt" and x[2] in ("core::result::Result", "core::option::Option"):
+                        hit = ("Err",) if info["key"].endswith("map_err") else ("Ok", "Some")
+                        if x[3] in hit and x[4]:
+                            v = self._apply_fn(args[1], x[4][0], site)
+                            res = ("agg", "adt", x[2], x[3], [v])
+                        else:
+                            res = x
                 if isinstance(res, tuple) and res and res[0] == "fork":
                     opaque = ("call", info["key"], info["def"], args, site, info["targs"])
                     events.append(("call", site, info["key"], info["base_key"], info["def"], args, info["targs"], opaque))
@@ -416,6 +427,18 @@ class Walker:
             self._finish(events, ("diverge", "term:" + k), None, env)
             return
 
+    def _apply_fn(self, f, v, site):
+        """value of f(v) for a local closure with one straight path or a function item; otherwise an opaque application"""
+        f0 = mir.strip_refs(f)
+        if f0[0] == "agg" and f0[1] == "closure":
+            r = self._closure_value(f0, [v])
+            if r is not None:
+                return r
+        if f0[0] == "fn" and len(f0) > 2 and isinstance(f0[2], dict):
+            info = callee_info(f0[2])
+            return ("call", info["key"], info["def"], [v], site, info["targs"])
+        return ("call", "apply", None, [f, v], site, [])
+
     def _closure_value(self, clos, args=()):
         """value returned by a local closure with a single straight path (used for `ok_or_else(|| ..)` and friends)"""
         c0 = mir.strip_refs(clos)
@@ -448,8 +471,21 @@ class Walker:
         gens = [g for g in callee.raw.get("generics", []) if g.get("k") != "lt"]
         if targs and len(gens) == len(targs):
             th = {g["s"]: a for g, a in zip(gens, targs) if g.get("k") == "param" and a.get("s") and a.get("s") != g.get("s")}
-            if th:
-                cenv["$theta"] = th
+            cth = {}
+            for g, a in zip(gens, targs):
+                if g.get("k") == "const" and a.get("k") == "const":
+                    m = _CONSTVAL.match(a.get("s", ""))
+                    if m:
+                        cth[g["s"].split("/#")[0]] = int(m.group(1))
+            outer = env.get("$theta") or {}
+            if th or cth or outer:
+                merged = dict(outer)
+                merged.update(th)
+                cenv["$theta"] = merged
+                if cth or env.get("$ctheta"):
+                    cc = dict(env.get("$ctheta") or {})
+                    cc.update(cth)
+                    cenv["$ctheta"] = cc
         for i, a in enumerate(args):
             cenv[i + 1] = a
         dest, tgt = t["dest"], t["t"]
@@ -504,6 +540,10 @@ def _canon_edge(op, v):
     if v[1] == [1]:
         return ("bool", False)
     return ("notin", tuple(v[1]))
+
+
+import re as _re
+_CONSTVAL = _re.compile(r"^(-?\d+)(?:_[iu](?:8|16|32|64|128|size))?$")
 
 
 def _subst_ty(t, theta):
